@@ -23,6 +23,8 @@ pub enum Ty {
     Opt(Box<Ty>),
     Res(Box<Ty>), // result<T, string>
     Fn(Vec<Ty>, Box<Ty>),
+    /// only inside the ANNOTATION of a `let`: printed as the wildcard `_` (docs: generics.md); the payload is the type it stands for
+    Hole(Box<Ty>),
 }
 
 #[derive(Clone, Copy, Debug, PartialEq)]
@@ -98,6 +100,10 @@ pub enum Expr {
     Call(String, Vec<Expr>),
     CallV(Box<Expr>, Vec<Expr>),
     Lam(Vec<(String, Ty)>, Box<Expr>),
+    /// a top-level function used as a value (`let f = gv0`, `[gv0, gv0][1](4)`)
+    FnRef(String),
+    /// a struct name used as a value: its constructor function
+    CtorRef(String),
     Try(Box<Expr>),
     Unwrap(Box<Expr>),
     /// `task { … }` (body is a `Block`); only produced by the nesting stream (no reference semantics)
@@ -155,6 +161,7 @@ pub fn ty_src(t: &Ty, p: &Program) -> String {
         Ty::Bool => "bool".into(),
         Ty::Str => "string".into(),
         Ty::Unit => "void".into(),
+        Ty::Hole(_) => "_".into(),
         Ty::Tuple(ts) => format!("({})", ts.iter().map(|t| ty_src(t, p)).collect::<Vec<_>>().join(", ")),
         Ty::Struct(i) => p.structs[*i].name.clone(),
         Ty::Enum(i) => p.enums[*i].name.clone(),
@@ -293,6 +300,7 @@ pub fn expr_src(e: &Expr, p: &Program, lvl: usize) -> String {
             ps.iter().map(|(x, t)| format!("{x}: {}", ty_src(t, p))).collect::<Vec<_>>().join(", "),
             expr_src(body, p, lvl)
         ),
+        Expr::FnRef(f) | Expr::CtorRef(f) => f.clone(),
         Expr::Try(a) => format!("{}?", expr_src(a, p, lvl)),
         Expr::Unwrap(a) => format!("{}!", expr_src(a, p, lvl)),
         Expr::Task(b) => format!("task {}", expr_src(b, p, lvl)),
@@ -449,6 +457,8 @@ pub fn expr_sx(e: &Expr) -> String {
         Expr::Call(f, es) => format!("( call {f} {} )", list(es)),
         Expr::CallV(f, es) => format!("( callv {} {} )", expr_sx(f), list(es)),
         Expr::Lam(ps, b) => format!("( lam ( params {} ) {} )", ps.iter().map(|(x, _)| x.clone()).collect::<Vec<_>>().join(" "), expr_sx(b)),
+        Expr::FnRef(f) => format!("( fnref {f} )"),
+        Expr::CtorRef(f) => format!("( mkref {f} )"),
         Expr::Try(a) => format!("( try {} )", expr_sx(a)),
         Expr::Unwrap(a) => format!("( unwrap {} )", expr_sx(a)),
         Expr::Task(b) => format!("( task {} )", expr_sx(b)),
@@ -513,7 +523,8 @@ pub struct GenOpts {
     pub stmts: usize,
     /// node budget for the whole program
     pub budget: i32,
-    /// keep `break`/`continue` at operand depth 0 (the hypothesis of C02_compile_correct_F0; D21)
+    /// keep `break`/`continue` at operand depth 0 (the historical DepthSafe restriction: D21, repaired by 0c43abd).
+    /// Off by default: `break`/`continue` appear while operands of the enclosing loop are pending.
     pub depth_safe: bool,
     /// nested lambdas may capture variables from beyond their enclosing lambda (D16)
     pub deep_capture: bool,
@@ -544,7 +555,7 @@ pub struct GenOpts {
 
 impl Default for GenOpts {
     fn default() -> Self {
-        GenOpts { tier: 0, stmts: 8, budget: 60, depth_safe: true, deep_capture: true, big_ints: 3, avoid_scrutinee_bugs: false, avoid_void_assign: false, avoid_for_shadow: false, avoid_captured_target: false, avoid_never_value: false, try_boost: false, avoid_void_try: false, lambda_boost: false, no_unit_vars: false, nesting: false }
+        GenOpts { tier: 0, stmts: 8, budget: 60, depth_safe: false, deep_capture: true, big_ints: 3, avoid_scrutinee_bugs: false, avoid_void_assign: false, avoid_for_shadow: false, avoid_captured_target: false, avoid_never_value: false, try_boost: false, avoid_void_try: false, lambda_boost: false, no_unit_vars: false, nesting: false }
     }
 }
 
@@ -716,6 +727,11 @@ impl<'a> Gen<'a> {
             return self.scalar();
         }
         let r = if (self.o.nesting || self.o.lambda_boost) && t >= 3 && self.rng.chance(1, 3) { 98 } else { self.rng.below(100) };
+        if t >= 3 && self.rng.chance(1, 10) {
+            // function values and arrays of them (`fs[i](x)`)
+            let f = self.fn_ty();
+            return if self.rng.chance(1, 2) { Ty::Array(Box::new(f)) } else { f };
+        }
         match r {
             0..=44 => self.scalar(),
             45..=54 => {
@@ -726,6 +742,7 @@ impl<'a> Gen<'a> {
             65..=72 if !self.prog.enums.is_empty() => Ty::Enum(self.rng.below(self.prog.enums.len() as u64) as usize),
             73..=86 => {
                 let e = match self.rng.below(8) {
+                    _ if t >= 3 && self.rng.chance(1, 5) => self.fn_ty(),
                     0..=4 => Ty::Int,
                     5 => Ty::Str,
                     6 => Ty::Bool,
@@ -750,6 +767,20 @@ impl<'a> Gen<'a> {
         }
     }
     fn fn_ty(&mut self) -> Ty {
+        if self.tier() >= 3 && self.rng.chance(2, 5) {
+            let mut sigs: Vec<Ty> = vec![];
+            for f in &self.prog.fns {
+                if f.name.starts_with("gv") {
+                    sigs.push(Ty::Fn(f.params.iter().map(|(_, t)| t.clone()).collect(), Box::new(f.ret.clone())));
+                }
+            }
+            for (i, d) in self.prog.structs.iter().enumerate() {
+                sigs.push(Ty::Fn(d.fields.iter().map(|(_, t)| t.clone()).collect(), Box::new(Ty::Struct(i))));
+            }
+            if !sigs.is_empty() {
+                return self.rng.pick(&sigs).clone();
+            }
+        }
         let n = 1 + self.rng.below(2) as usize;
         let mut args: Vec<Ty> = (0..n).map(|_| self.scalar()).collect();
         if !self.o.no_unit_vars && self.rng.chance(1, 4) {
@@ -801,6 +832,14 @@ impl<'a> Gen<'a> {
             self.typed_ctx = true;
             return self.ctor(ty, d);
         }
+        // `{ if c { break } else { }; e }` as an operand: the operands pushed so far have to be dropped by the jump
+        if !self.o.depth_safe && self.loop_depth > 0 && self.depth > 0 && *ty != Ty::Unit && self.budget > 4 && self.rng.chance(1, 10) {
+            let c = self.expr(&Ty::Bool, 1);
+            let jump = if self.rng.chance(1, 2) { Stmt::Break } else { Stmt::Continue };
+            self.hit("jump_in_operand");
+            let v = self.expr(ty, d.saturating_sub(1));
+            return Expr::Block(vec![Stmt::Expr(Expr::If(Box::new(c), Box::new(Expr::Block(vec![jump])), Box::new(Expr::Block(vec![])))), Stmt::Expr(v)]);
+        }
         // common to all types: variable, if, block, match, call, lambda call, index, field
         if !leaf && *ty != Ty::Unit {
             let r = self.rng.below(100);
@@ -820,7 +859,7 @@ impl<'a> Gen<'a> {
                     return e;
                 }
             }
-            if (r < 33 || (self.o.lambda_boost && r < 60)) && self.tier() >= 3 {
+            if (r < 37 || (self.o.lambda_boost && r < 60)) && self.tier() >= 3 {
                 if let Some(e) = self.callv_expr(ty, d) {
                     return e;
                 }
@@ -1039,7 +1078,30 @@ impl<'a> Gen<'a> {
                     if typed { Expr::Variant("result".into(), "ok".into(), vec![v]) } else { Expr::Call("ok_int".into(), vec![v]) }
                 }
             }
-            Ty::Fn(args, ret) => self.lambda(&args.clone(), &ret.clone(), d),
+            Ty::Fn(args, ret) => {
+                // a named function / a struct constructor of exactly this type as the value
+                let mut named: Vec<Expr> = vec![];
+                if self.tier() >= 3 {
+                    for f in &self.prog.fns {
+                        if f.name.starts_with("gv") && **ret == f.ret && f.params.iter().map(|(_, t)| t).eq(args.iter()) {
+                            named.push(Expr::FnRef(f.name.clone()));
+                        }
+                    }
+                    if let Ty::Struct(i) = &**ret {
+                        let d = &self.prog.structs[*i];
+                        if d.fields.iter().map(|(_, t)| t).eq(args.iter()) {
+                            named.push(Expr::CtorRef(d.name.clone()));
+                        }
+                    }
+                }
+                if !named.is_empty() && self.rng.chance(3, 5) {
+                    let e = self.rng.pick(&named).clone();
+                    self.hit(if matches!(e, Expr::FnRef(_)) { "fn_value" } else { "ctor_value" });
+                    return e;
+                }
+                self.lambda(&args.clone(), &ret.clone(), d)
+            }
+            Ty::Hole(t) => self.ctor(&t.clone(), d),
         }
     }
 
@@ -1361,7 +1423,7 @@ impl<'a> Gen<'a> {
     fn call_expr(&mut self, ty: &Ty, d: u32) -> Option<Expr> {
         // only functions defined before the current one (or the current one through `self_call`)
         let limit = self.cur_fn.unwrap_or(self.prog.fns.len());
-        let cands: Vec<usize> = (0..limit.min(self.prog.fns.len())).filter(|i| &self.prog.fns[*i].ret == ty && self.prog.fns[*i].name.starts_with("fn")).collect();
+        let cands: Vec<usize> = (0..limit.min(self.prog.fns.len())).filter(|i| &self.prog.fns[*i].ret == ty && ["fn", "gv", "fw"].iter().any(|p| self.prog.fns[*i].name.starts_with(p))).collect();
         // recursion: `f(n - 1, …)` inside f's own body, below the `n <= 0` guard
         if let Some((name, params, ret)) = self.self_sig.clone() {
             if &ret == ty && self.self_calls_left > 0 && self.lambda_depth == 0 && (cands.is_empty() || self.rng.chance(1, 2)) {
@@ -1413,13 +1475,21 @@ impl<'a> Gen<'a> {
 
     fn callv_expr(&mut self, ty: &Ty, d: u32) -> Option<Expr> {
         let own_only = self.scrut_mode && self.lambda_depth > 0;
-        let cands: Vec<Var> =
-            self.visible().into_iter().filter(|v| matches!(&v.ty, Ty::Fn(_, r) if &**r == ty) && (!own_only || self.is_own(&v.name))).collect();
+        let is_fn = |t: &Ty| matches!(t, Ty::Fn(_, r) if &**r == ty);
+        let cands: Vec<Var> = self
+            .visible()
+            .into_iter()
+            .filter(|v| (is_fn(&v.ty) || matches!(&v.ty, Ty::Array(e) if is_fn(e))) && (!own_only || self.is_own(&v.name)))
+            .collect();
         if cands.is_empty() {
             return None;
         }
         let v = self.rng.pick(&cands).clone();
-        let Ty::Fn(ats, _) = &v.ty else { unreachable!() };
+        let (fty, indexed) = match &v.ty {
+            Ty::Array(e) => ((**e).clone(), true),
+            t => (t.clone(), false),
+        };
+        let Ty::Fn(ats, _) = &fty else { unreachable!() };
         let mut args = vec![];
         let d0 = self.depth;
         for t in ats {
@@ -1429,6 +1499,12 @@ impl<'a> Gen<'a> {
             }
         }
         self.depth = d0;
+        if indexed {
+            // `fs[i](args)`: the result of an index expression called directly (D91); arguments first, then the callee
+            self.hit("call_indexed");
+            let ix = Expr::Int(if self.rng.chance(5, 6) { 0 } else { self.rng.below(3) as i64 });
+            return Some(Expr::CallV(Box::new(Expr::Index(Box::new(Expr::Var(v.name)), Box::new(ix))), args));
+        }
         self.hit("call_lambda");
         Some(Expr::CallV(Box::new(Expr::Var(v.name)), args))
     }
@@ -1638,7 +1714,9 @@ impl<'a> Gen<'a> {
     fn let_stmt(&mut self, d: u32) -> Stmt {
         let ty = self.var_ty();
         let annotated = matches!(&ty, Ty::Array(_) | Ty::Opt(_) | Ty::Res(_) | Ty::Fn(..)) || self.rng.chance(1, 6);
-        self.typed_ctx = annotated;
+        // wildcard annotation (`array<_>`, `(_, string)`, `_`): the initialiser then has to be typed by itself
+        let holes = annotated && self.tier() >= 1 && self.rng.chance(1, 4);
+        self.typed_ctx = annotated && !holes;
         let e = self.expr(&ty, d.max(1));
         // destructuring let for tuples / structs
         if let Ty::Tuple(ts) = &ty {
@@ -1679,8 +1757,38 @@ impl<'a> Gen<'a> {
         self.declare(&x, ty.clone(), mutable, false);
         self.hit(if mutable { "var" } else { "let" });
         // annotate when inference has nothing to go on
-        let ann = if annotated { Some(ty.clone()) } else { None };
+        let ann = if holes {
+            self.hit("hole_annotation");
+            Some(self.holeify(&ty))
+        } else if annotated {
+            Some(ty.clone())
+        } else {
+            None
+        };
         Stmt::Let(mutable, Pat::Bind(x), ann, e)
+    }
+
+    /// replace a component of `t` (or all of it) by the wildcard
+    fn holeify(&mut self, t: &Ty) -> Ty {
+        let h = |t: &Ty| Ty::Hole(Box::new(t.clone()));
+        match t {
+            Ty::Array(e) if self.rng.chance(3, 4) => Ty::Array(Box::new(h(e))),
+            Ty::Opt(e) if self.rng.chance(3, 4) => Ty::Opt(Box::new(h(e))),
+            Ty::Res(e) if self.rng.chance(3, 4) => Ty::Res(Box::new(h(e))),
+            Ty::Tuple(ts) if self.rng.chance(3, 4) => {
+                let k = self.rng.below(ts.len() as u64) as usize;
+                Ty::Tuple(ts.iter().enumerate().map(|(i, t)| if i == k || self.rng.chance(1, 3) { h(t) } else { t.clone() }).collect())
+            }
+            Ty::Fn(a, r) if self.rng.chance(3, 4) => {
+                if self.rng.chance(1, 2) || a.is_empty() {
+                    Ty::Fn(a.clone(), Box::new(h(r)))
+                } else {
+                    let k = self.rng.below(a.len() as u64) as usize;
+                    Ty::Fn(a.iter().enumerate().map(|(i, t)| if i == k { h(t) } else { t.clone() }).collect(), r.clone())
+                }
+            }
+            t => h(t),
+        }
     }
 
     fn assign_stmt(&mut self, d: u32) -> Option<Stmt> {
@@ -1720,7 +1828,7 @@ impl<'a> Gen<'a> {
             Ty::Struct(i) => {
                 let def = self.prog.structs[*i].clone();
                 let (f, t) = self.rng.pick(&def.fields).clone();
-                if t == Ty::Unit {
+                if t == Ty::Unit && self.o.no_unit_vars {
                     return None;
                 }
                 if t == Ty::Int && self.rng.chance(1, 2) {
@@ -1731,9 +1839,23 @@ impl<'a> Gen<'a> {
                     self.hit("field_compound");
                     Some(Stmt::AssignField(Expr::Var(v.name), f, op, e))
                 } else {
+                    // the right-hand side runs first, then the object expression; a void field stores nothing
                     let e = self.expr(&t, d1);
-                    self.hit("field_assign");
-                    Some(Stmt::AssignField(Expr::Var(v.name), f, AsgOp::Set, e))
+                    self.hit(if t == Ty::Unit { "field_assign_void" } else { "field_assign" });
+                    let obj = if self.rng.chance(1, 4) {
+                        if t != Ty::Unit {
+                            self.depth += 1;
+                        }
+                        let o = self.expr(&v.ty, d1);
+                        if t != Ty::Unit {
+                            self.depth -= 1;
+                        }
+                        self.hit("field_assign_object_expr");
+                        o
+                    } else {
+                        Expr::Var(v.name)
+                    };
+                    Some(Stmt::AssignField(obj, f, AsgOp::Set, e))
                 }
             }
             Ty::Array(t) => {
@@ -1927,7 +2049,7 @@ impl<'a> Gen<'a> {
         self.loop_depth = 0;
         self.depth = 0;
         self.lambda_depth = 0;
-        self.cur_fn = Some(k);
+        self.cur_fn = Some(self.prog.fns.len());
         self.ret_ty = Some(ret.clone());
         self.budget = self.o.budget / 2;
         for (x, t) in params.iter() {
@@ -1960,11 +2082,77 @@ impl<'a> Gen<'a> {
         self.prog.fns.push(FnDef { name, params, ret, body: Expr::Block(body) });
     }
 
+    /// a function without recursion budget (`gv<k>`: used as a VALUE and called by name; `fw0`: >= 32 parameters)
+    fn gen_leaf_fn(&mut self, name: String, np: usize) {
+        let mut params: Vec<(String, Ty)> = vec![];
+        for _ in 0..np {
+            let t = self.scalar();
+            params.push((self.fresh("a"), t));
+        }
+        if !self.o.no_unit_vars && self.rng.chance(1, 3) {
+            let nv = 1 + self.rng.below(2) as usize;
+            for _ in 0..nv {
+                let pos = self.rng.below(params.len() as u64 + 1) as usize;
+                params.insert(pos, (self.fresh("u"), Ty::Unit));
+            }
+        }
+        let ret = self.scalar();
+        self.scopes = vec![vec![]];
+        self.capture_floor = 0;
+        self.visible_floor = 0;
+        self.loop_depth = 0;
+        self.depth = 0;
+        self.lambda_depth = 0;
+        self.cur_fn = Some(self.prog.fns.len());
+        self.ret_ty = Some(ret.clone());
+        self.budget = (self.o.budget / 3).max(12);
+        self.self_sig = None;
+        // protected: never shadowed, the result expression below mentions them by name
+        for (x, t) in params.iter() {
+            self.declare(x, t.clone(), false, true);
+        }
+        let mut body = vec![];
+        let ns = self.rng.below(3) as usize;
+        for _ in 0..ns {
+            self.stmt(1, &mut body);
+        }
+        self.budget = self.budget.max(8);
+        // the result mentions parameters from both ends of the list
+        let tail = self.expr(&ret, 2);
+        let first = params.iter().find(|(_, t)| *t == ret).map(|(x, _)| Expr::Var(x.clone()));
+        let last = params.iter().rev().find(|(_, t)| *t == ret).map(|(x, _)| Expr::Var(x.clone()));
+        let fin = match (&ret, first, last) {
+            (Ty::Int, Some(a), Some(b)) => Expr::Bin(BinOp::Add, Box::new(Expr::Bin(BinOp::Sub, Box::new(a), Box::new(b))), Box::new(tail)),
+            (Ty::Str, Some(a), Some(b)) => Expr::Bin(BinOp::Concat, Box::new(Expr::Bin(BinOp::Concat, Box::new(a), Box::new(b))), Box::new(tail)),
+            (Ty::Bool, Some(a), Some(b)) => Expr::Bin(BinOp::Or, Box::new(Expr::Bin(BinOp::And, Box::new(a), Box::new(b))), Box::new(tail)),
+            _ => tail,
+        };
+        body.push(Stmt::Expr(fin));
+        self.cur_fn = None;
+        self.ret_ty = None;
+        self.prog.fns.push(FnDef { name, params, ret, body: Expr::Block(body) });
+    }
+
     pub fn program(mut self) -> (Program, std::collections::BTreeMap<&'static str, u64>) {
         if self.tier() >= 1 {
             self.gen_defs();
         }
+        if self.tier() >= 3 {
+            let ng = self.rng.below(3) as usize;
+            for k in 0..ng {
+                let np = 1 + self.rng.below(2) as usize;
+                self.gen_leaf_fn(format!("gv{k}"), np);
+            }
+        }
+        let mut wide: Option<FnDef> = None;
         if self.tier() >= 2 {
+            if self.rng.chance(1, 5) {
+                // more than CallData::MAX_NARGS = 31 parameters: the call goes through a function object
+                let n = 32 + self.rng.below(6) as usize;
+                self.gen_leaf_fn("fw0".into(), n);
+                wide = self.prog.fns.last().cloned();
+                self.hit("wide_fn");
+            }
             let nf = 1 + self.rng.below(3) as usize;
             for k in 0..nf {
                 self.gen_fn(k);
@@ -1999,6 +2187,26 @@ impl<'a> Gen<'a> {
         self.lambda_depth = 0;
         self.budget = self.o.budget;
         let mut main = vec![];
+        if let Some(f) = wide {
+            // the wide function is called at least once, with operands already pending when its arguments are pushed
+            let b = self.budget;
+            let mut args = vec![];
+            self.depth = 1;
+            for (_, t) in &f.params {
+                args.push(if *t == Ty::Unit { Expr::Unit } else { self.expr(t, 0) });
+            }
+            self.depth = 0;
+            self.budget = b;
+            let x = self.fresh("v");
+            let call = Expr::Call(f.name.clone(), args);
+            let init = match &f.ret {
+                Ty::Int => Expr::Bin(BinOp::Add, Box::new(Expr::Int(1)), Box::new(call)),
+                Ty::Str => Expr::Bin(BinOp::Concat, Box::new(Expr::Str("w".into())), Box::new(call)),
+                _ => call,
+            };
+            main.push(Stmt::Let(false, Pat::Bind(x.clone()), None, init));
+            self.declare(&x, f.ret.clone(), false, false);
+        }
         let n = self.o.stmts;
         for _ in 0..n {
             if self.budget <= 0 {
@@ -2125,7 +2333,7 @@ fn shrink_expr(e: &Expr, out: &mut Vec<Expr>) {
                 }
             }
         }
-        Expr::Bool(_) | Expr::Unit | Expr::Var(_) => {}
+        Expr::Bool(_) | Expr::Unit | Expr::Var(_) | Expr::FnRef(_) | Expr::CtorRef(_) => {}
         Expr::Str(s) => {
             if !s.is_empty() {
                 out.push(Expr::Str(String::new()));
@@ -2382,6 +2590,12 @@ impl Resolver {
                 format!("( lam ( params {} ) {b} )", ids.join(" "))
             }
             Expr::Task(body) => format!("( task {} )", self.expr(body)),
+            // a named function / constructor as a value captures nothing and owns no slot
+            Expr::FnRef(f) => {
+                self.calls.push(f.clone());
+                "( lit )".into()
+            }
+            Expr::CtorRef(_) => "( lit )".into(),
         }
     }
     pub fn stmt(&mut self, s: &Stmt) -> String {
